@@ -181,6 +181,11 @@ impl ReadBufPool {
         // Get a ring_buf we write into.
         // NOTE: that we allocated at least as many `io_uring_buf`s as we
         // did buffer, so there is always a slot available for us.
+        #[cfg(a10_verif)]
+        crate::verif::yield_point(
+            crate::verif::Site::BufRingTailLoad,
+            ptr::from_ref(ring_tail).addr(),
+        );
         let tail = ring_tail.load(Ordering::Acquire);
         let ring_idx = tail & self.tail_mask;
         let ring_buf = unsafe {
@@ -211,7 +216,17 @@ impl ReadBufPool {
         );
         // NOTE: poising the buffer again, unpoisoned in ReadBufPool::init_buffer.
         asan::poison_region(ptr.as_ptr().cast(), self.buf_size());
+        #[cfg(a10_verif)]
+        crate::verif::yield_point(
+            crate::verif::Site::BufRingTailStore,
+            ptr::from_ref(ring_tail).addr(),
+        );
         ring_tail.store(tail.wrapping_add(1), Ordering::Release);
+        #[cfg(a10_verif)]
+        crate::verif::yield_point(
+            crate::verif::Site::BufRingTailStored,
+            ptr::from_ref(ring_tail).addr(),
+        );
         unlock(guard);
     }
 
